@@ -266,7 +266,9 @@ func propC20(c *Ctx) {
 
 	// ---- R20.3 ----------------------------------------------------------
 	c.Rule("R20.3", "one generation at a time: Run holds the lock from entry to return, waits for all runners; Restart stops the old generation first", 6)
-	run := w.Fn("shovel", "(*Manager).Run")
+	// run is the generation body (Run = load the current stop channel under its mutex, then run)
+	run := w.Fn("shovel", "(*Manager).run")
+	runExported := w.Fn("shovel", "(*Manager).Run")
 	runTask := w.Fn("shovel", "(*Manager).runTask")
 	fRunning := w.Field("shovel", "Manager", "running")
 	fRestart := w.Field("shovel", "Manager", "restart")
@@ -363,6 +365,14 @@ func propC20(c *Ctx) {
 			}
 		}
 		c.Check("R20.3", fmt.Sprintf("Run/runner#%d", nGo), g.Pos(), addOK && doneOK, fmt.Sprintf("wg.Add(1) precedes the goroutine in the same iteration (%v); the goroutine calls wg.Done after runTask on every path (%v)", addOK, doneOK))
+		chOK := false
+		if args := rts[0].Call.Args; len(args) == 3 {
+			k := accessPath(args[2])
+			if p, ok := k.Root.(*ssa.Parameter); ok && k.Path == "" && p.Parent() == run && paramIndex(p) == 2 {
+				chOK = true
+			}
+		}
+		c.Check("R20.3", fmt.Sprintf("Run/runner#%d-stop-channel", nGo), g.Pos(), chOK, "the runner polls the stop channel this generation was started with (run's parameter), not another one")
 	})
 	if nGo == 0 {
 		c.Violation("R20.3", "Run/runner", run.Pos(), "Run starts no runner goroutine")
@@ -390,8 +400,58 @@ func propC20(c *Ctx) {
 			okRet = true
 		}
 	}
-	c.Check("R20.3", "Restart/close-then-Run", rs.Pos(), okRestart, "the stop channel is closed before the next generation's Run is started")
-	c.Check("R20.3", "Restart/returns-startup-error", rs.Pos(), okRet, "Restart returns what Run reports on the channel it was given")
+	c.Check("R20.3", "Restart/close-then-Run", rs.Pos(), okRestart, "the stop channel is closed before the next generation is started")
+	c.Check("R20.3", "Restart/returns-startup-error", rs.Pos(), okRet, "Restart returns what run reports on the channel it was given")
+	// the generation being started gets a fresh channel, installed as the
+	// current one after the old one was closed
+	{
+		var fresh ssa.Value
+		if g, ok := goRun.(*ssa.Go); ok && len(g.Call.Args) == 3 {
+			if mk, ok := g.Call.Args[2].(*ssa.MakeChan); ok {
+				fresh = mk
+			}
+		}
+		installed := false
+		if fresh != nil {
+			allInstrs(rs, func(in ssa.Instruction) {
+				st, ok := in.(*ssa.Store)
+				if !ok || st.Val != fresh {
+					return
+				}
+				if f, _ := fieldOf(st.Addr); f == fRestart && closeCall != nil && dominatesInstr(closeCall, st) && dominatesInstr(st, goRun) {
+					installed = true
+				}
+			})
+		}
+		// no other store to the field in Restart
+		nStores := 0
+		for _, fn := range w.RepoFuncs() {
+			allInstrs(fn, func(in ssa.Instruction) {
+				if st, ok := in.(*ssa.Store); ok {
+					if f, _ := fieldOf(st.Addr); f == fRestart && !isLocalAlloc(accessPath(st.Addr.(*ssa.FieldAddr).X).Root) {
+						nStores++
+					}
+				}
+			})
+		}
+		c.Check("R20.3", "Restart/fresh-channel", rs.Pos(), fresh != nil && installed && nStores == 1,
+			fmt.Sprintf("the new generation runs on a channel made by this Restart (%v) which is installed as Manager.restart after the old one was closed and before the generation starts (%v); it is the only assignment of the field outside the constructor (%d)", fresh != nil, installed, nStores))
+	}
+	// Run = run(ec, current channel)
+	{
+		good := false
+		for _, call := range callsToFn(runExported, run) {
+			args := call.Call.Args
+			if len(args) != 3 {
+				continue
+			}
+			p, isParam := args[1].(*ssa.Parameter)
+			if isParam && p.Parent() == runExported && isLoadOfField(args[2], fRestart) {
+				good = true
+			}
+		}
+		c.Check("R20.3", "Run/runs-on-current-channel", runExported.Pos(), good, "Run starts the generation body with its ec and the current Manager.restart")
+	}
 	// Run reports on ec: error on failure, close on success
 	{
 		lts := callsToFn(run, lt)
@@ -423,7 +483,7 @@ func propC20(c *Ctx) {
 	c.Rule("R20.4", "runTask polls the stop channel before every Converge and returns on it", 1)
 	conv := w.Fn("shovel", "(*Task).Converge")
 	okSel := false
-	detail := "select on Manager.restart precedes every Converge"
+	detail := "select on the stop channel parameter precedes every Converge"
 	allInstrs(runTask, func(in ssa.Instruction) {
 		sel, ok := in.(*ssa.Select)
 		if !ok {
@@ -431,7 +491,7 @@ func propC20(c *Ctx) {
 		}
 		idxRestart := -1
 		for i, st := range sel.States {
-			if st.Dir == types.RecvOnly && isLoadOfField(st.Chan, fRestart) {
+			if p, ok := accessPath(st.Chan).Root.(*ssa.Parameter); ok && st.Dir == types.RecvOnly && p.Parent() == runTask && paramIndex(p) == 2 {
 				idxRestart = i
 			}
 		}
@@ -482,8 +542,8 @@ func propC20(c *Ctx) {
 	c.Check("R20.4", "runTask/stop-before-converge", runTask.Pos(), okSel, detail)
 
 	// ---- R20.5 ----------------------------------------------------------
-	c.Rule("R20.5", "the stop channel is accessed with the generation lock held (same discipline as C18 R18.3)", 3)
-	lsCache := map[*ssa.Function]map[ssa.Instruction]lockState{}
+	c.Rule("R20.5", "Manager.restart (the current stop channel) is accessed with Manager.restartMut held (same discipline as C18 R18.3)", 3)
+	oracle := newLockOracle(res)
 	for _, fn := range w.RepoFuncs() {
 		n := 0
 		allInstrs(fn, func(in ssa.Instruction) {
@@ -502,17 +562,9 @@ func propC20(c *Ctx) {
 					continue
 				}
 				n++
-				if lsCache[fn] == nil {
-					lsCache[fn] = Locksets(fn, nil)
-				}
-				k := accessPath(fa.X)
-				if k.Path != "" {
-					k.Path += "."
-				}
-				k.Path += "running"
-				held := lsCache[fn][ref][k]
+				held, why := oracle.HeldAt(fn, ref, fa.X, "restartMut")
 				c.Check("R20.5", fmt.Sprintf("%s/Manager.restart#%d", fnName(fn), n), instrPos(ref), held,
-					"access to Manager.restart; lockset "+stateString(lsCache[fn][ref]))
+					"access to Manager.restart: "+why)
 			}
 		})
 	}
